@@ -422,15 +422,19 @@ Qed.
 End CheckTop.
 
 (* ---------- the routine table the program's own definitions give ---------- *)
-Lemma collect_atom mt st : simple_atom mt st = true -> forall fuel acc, collect_stmt fuel st acc = acc.
-Proof. intros H fuel acc. destruct fuel as [|fuel]; [reflexivity|]. destruct st; cbn [simple_atom] in H; try discriminate; reflexivity. Qed.
+(* (a `define` of a constant adds to the table of constants, not to the table of routines) *)
+Lemma collect_atom mt st : simple_atom mt st = true -> forall fuel acc, fst (collect_stmt fuel st acc) = fst acc.
+Proof.
+  intros H fuel acc. destruct fuel as [|fuel]; [reflexivity|]. destruct st; cbn [simple_atom] in H; try discriminate; try reflexivity.
+  cbn [collect_stmt]. destruct (macro_value (snd acc) v); reflexivity.
+Qed.
 
 Lemma collect_simple mt :
   (forall st, Simple mt st -> forall fuel acc, fst (collect_stmt fuel st acc) = fst acc) /\
   (forall l, SimpleL mt l -> forall fuel acc, fst (fold_left (fun a st => collect_stmt fuel st a) l acc) = fst acc).
 Proof.
   apply Simple_mutind.
-  - intros st H fuel acc. rewrite (collect_atom mt st H). reflexivity.
+  - intros st H fuel acc. exact (collect_atom mt st H fuel acc).
   - intros c a _ _ IHa fuel acc. destruct fuel as [|fuel]; [reflexivity|]. exact (IHa fuel acc).
   - intros c a b _ _ IHa _ IHb fuel acc. destruct fuel as [|fuel]; [reflexivity|]. cbn [collect_stmt]. rewrite IHb. exact (IHa fuel acc).
   - intros l _ IH fuel acc. destruct fuel as [|fuel]; [reflexivity|]. exact (IH fuel acc).
